@@ -30,6 +30,8 @@ pub struct CheckOpts {
     pub check_strings: bool,
     pub check_keyset: bool,
     pub check_warnings: bool,
+    /// compare every locale's string table (as a set) with the literal texts of the AST
+    pub check_string_tables: bool,
     pub null_fk: NullFkMode,
     /// D3 masked: do not compare keys whose value passes arguments through a reference chain
     pub default_listed: bool,
@@ -49,6 +51,7 @@ impl Default for CheckOpts {
             check_strings: true,
             check_keyset: true,
             check_warnings: true,
+            check_string_tables: true,
             null_fk: NullFkMode::AlongInherits,
             default_listed: true,
         }
@@ -73,6 +76,7 @@ pub struct ProjStats {
     pub expected_error_kinds: Vec<String>,
     pub warnings_expected: u64,
     pub silenced_absences: u64,
+    pub table_entries: u64,
 }
 
 fn fail(sig: &str, detail: J) -> Failure {
@@ -553,6 +557,67 @@ pub fn check_project(p: &Project, opts: &CheckOpts, dir: &Path, t: &mut Tape) ->
                     "project": ser::project_to_json(p),
                 }),
             ));
+        }
+    }
+
+    if opts.check_string_tables {
+        for ns in p.ns_list() {
+            let nsr = ns.as_deref();
+            let Some(def) = p.file(nsr, p.default_locale()) else { continue };
+            let mut paths = vec![];
+            leaf_paths(def, &mut vec![], &mut paths);
+            let Some((top_locales, top_keys)) = loaded.top(nsr) else { continue };
+            for loc in &p.locales {
+                let mut expected: BTreeSet<String> = BTreeSet::new();
+                for path in &paths {
+                    if sem.is_defaulted(nsr, loc, path) {
+                        continue;
+                    }
+                    if let Ok(r) = sem.resolve_at(nsr, loc, path) {
+                        let mut v = vec![];
+                        literal_texts(&r, &mut v);
+                        expected.extend(v);
+                    }
+                }
+                let Some(l) = top_locales.iter().find(|l| &*l.name.name == loc.as_str()) else { continue };
+                let actual: BTreeSet<String> = l.strings.iter().map(|s| s.to_string()).collect();
+                st.observations += 1;
+                st.table_entries += l.strings.len() as u64;
+                if actual.len() != l.strings.len() {
+                    return Err(fail("string-table-duplicates", json!({"locale": loc, "namespace": ns, "table": l.strings.iter().map(|s| s.to_string()).collect::<Vec<_>>(), "project": ser::project_to_json(p)})));
+                }
+                if actual != expected {
+                    let missing: Vec<_> = expected.difference(&actual).cloned().collect();
+                    let extra: Vec<_> = actual.difference(&expected).cloned().collect();
+                    return Err(fail("string-table-content", json!({"locale": loc, "namespace": ns, "missing_from_table": missing, "unexpected_in_table": extra, "project": ser::project_to_json(p)})));
+                }
+                if l.top_locale_string_count != l.strings.len() {
+                    return Err(fail("string-count-mismatch", json!({"locale": loc, "count": l.top_locale_string_count, "len": l.strings.len()})));
+                }
+            }
+            // nested locales must carry the length of their top locale's table
+            fn walk_counts(k: &leptos_i18n_parser::parse_locales::locale::BuildersKeysInner, tops: &[leptos_i18n_parser::parse_locales::locale::Locale], n: &mut u64) -> Result<(), J> {
+                use leptos_i18n_parser::parse_locales::locale::LocaleValue;
+                for (name, lv) in &k.0 {
+                    if let LocaleValue::Subkeys { locales, keys } = lv {
+                        if locales.len() != tops.len() {
+                            return Err(json!({"group": &*name.name, "nested_locales": locales.len(), "top_locales": tops.len()}));
+                        }
+                        for (sub, top) in locales.iter().zip(tops) {
+                            *n += 1;
+                            if sub.top_locale_name != top.name || sub.top_locale_string_count != top.strings.len() {
+                                return Err(json!({"group": &*name.name, "nested_top_locale": &*sub.top_locale_name.name, "position_locale": &*top.name.name,
+                                    "nested_count": sub.top_locale_string_count, "table_len": top.strings.len()}));
+                            }
+                        }
+                        walk_counts(keys, tops, n)?;
+                    }
+                }
+                Ok(())
+            }
+            if let Err(d) = walk_counts(top_keys, top_locales, &mut st.observations) {
+                return Err(fail("nested-string-count-mismatch", json!({"what": d, "namespace": ns, "project": ser::project_to_json(p)})));
+            }
         }
     }
 
